@@ -356,6 +356,8 @@ CO_ERR COSdoDownloadExpedited(CO_SDO *srv)
             srv->Obj = 0;
             result   = CO_ERR_NONE;
         }
+    } else if (size > 4) {
+        COSdoAbort(srv, CO_SDO_ERR_LEN);
     }
     return (result);
 }
